@@ -46,7 +46,10 @@ RULE = (
     "strings, ascending / descending / permuted code order). All 256 codes of every font are shown. One evaluation "
     "= one font (256 code comparisons, counted in codes_text_judged / codes_adv_judged) or one directly driven name / "
     "Differences array; distinct = distinct font cases or names; non-trivial = a font with >=100 judged codes, or "
-    "any direct case. NOT generated (ambiguous): a standard-14 base font, or one of the alternative names the PDF "
+    "any direct case. Base font names include subset-tagged standard-14 names and aliases (ABCDEF+Times-Roman, "
+    "XYZABC+Arial,Bold ...) with their own /Widths and embedded program: by 9.6.4 these are subsets of embedded fonts, "
+    "not standard fonts. Differences runs start at 0, end at 255 by the running count, or name 255 explicitly; none "
+    "runs past 255. NOT generated (ambiguous): a standard-14 base font, or one of the alternative names the PDF "
     "Reference lists for them (Arial, TimesNewRoman, CourierNew...), together with /Widths or an embedded program; "
     "composite names with unknown components; lower-case uni/u hex digits; symbolic fonts; MacExpertEncoding; "
     "Type1/TrueType without /Encoding unless standard-14 or embedded Type 1; Type3 /Encoding without /BaseEncoding; "
@@ -97,6 +100,10 @@ def minimums(tier: str) -> Dict[str, int]:
         "adv_src_type3_missing_either": 8000 if q else 300000,
         "type3_fonts_widths_one_object_referenced_twice": 25 if q else 1000,
         "fonts_widths_one_object_referenced_twice": 120 if q else 5000,
+        "fonts_subset_tag_plus_std14_name": 300 if q else 12000,
+        "fonts_subset_tag_plus_std14_name_builtin_encoding": 40 if q else 1600,
+        "diff_names_for_code_255": 150 if q else 6000,
+        "diff_names_for_code_0": 60 if q else 2500,
         "pages_with_several_fonts": 150 if q else 6000,
         "font_dict_inline_after_indirect": 50 if q else 2000,
         "font_dict_indirect_after_inline": 30 if q else 1200,
@@ -320,6 +327,21 @@ def run_doc(cases: List[Dict[str, Any]], xref: str, pack: bool, rec=None,
                 rec.count("fonts_with_fontfile")
             if case["direct"]:
                 rec.count("fonts_direct_dict")
+            if case["subtype"] != "Type3" and case["basefont"] in G.SUBSET_STD14:
+                rec.count("fonts_subset_tag_plus_std14_name")
+                if case["fontfile"] and case["enc"]["kind"] == "absent":
+                    rec.count("fonts_subset_tag_plus_std14_name_builtin_encoding")
+            if case["enc"]["kind"] == "dict":
+                code = None
+                for x in case["enc"]["diff"]:
+                    if isinstance(x, int):
+                        code = x
+                    else:
+                        if code == 255:
+                            rec.count("diff_names_for_code_255")
+                        elif code == 0:
+                            rec.count("diff_names_for_code_0")
+                        code += 1
             if case["widths"] and case["widths"]["indirect"] == "shared" and len(case["widths"]["list"]) >= 2:
                 rec.count("fonts_widths_one_object_referenced_twice")
                 if case["subtype"] == "Type3":
